@@ -13,6 +13,8 @@ package main
 // output (C06) := per op ok:<kidIsThumbprint 1|0|->|err ... " || reopen: " per key <get ok|fail>/<same key 1|0|-> ...
 
 import (
+	"github.com/hyperledger/aries-framework-go/component/kmscrypto/doc/util/kmsdidkey"
+
 	"bytes"
 	"crypto/ecdsa"
 	"crypto/ed25519"
@@ -500,6 +502,18 @@ func kmsRun(input string, c06 bool) string {
 					o += ":1"
 				} else {
 					o += ":0"
+				}
+				// ... and the id another party derives from the did:key form of the exported key?
+				// (key agreement keys and Ed25519, the types kmsdidkey derives key ids for; created keys only)
+				if f[0] == "import" || !(base == "ed25519" || base == "x25519kw" || base == "p256kw") {
+				} else if dk, e := kmsdidkey.BuildDIDKeyByKeyType(pub, kmsKeyTypes[base]); e != nil {
+					o += "d-"
+				} else if pk, e := kmsdidkey.EncryptionPubKeyFromDIDKey(dk); e != nil {
+					o += "d?"
+				} else if pk.KID == key.id {
+					o += "d1"
+				} else {
+					o += "d0"
 				}
 			} else {
 				o += ":-"
